@@ -1,6 +1,6 @@
 """C12 — parallel evaluation = serial evaluation for every completion order (structural clauses).
 
-R12.1 exactly-once collection under the `ray.wait` contract.
+R12.1 exactly-once collection under the `ray.wait` contract; the wait loop is left only on evidence computed from what ray.wait returned.
 R12.2 result/K-point pairing (parallel and serial arms) and sibling accumulation.
 R12.3 tabulated results are re-ordered by coordinate before run() returns (shared with C29).
 R12.4 the per-K helper reads the weighted result after storing it and before clearing it.
@@ -19,9 +19,10 @@ EXPLANATION = (
     "Static must/never rules on run_grid.process, run_grid.run and TABresult.self_to_path: (R12.1) the set of "
     "already-collected remote results only grows inside the ray.wait loop and the collection loop lies on every "
     "path from ray.wait to a loop exit, so under the documented ray.wait contract (at most num_returns ready refs, "
-    "in input order, possibly omitting refs returned earlier) every remote result is added exactly once; "
-    "(R12.2) the result fetched for index i is stored on the K-point with the same index of the same list the "
-    "remotes were created from, and the serial and parallel arms accumulate identically; (R12.3) every path of run() "
+    "in input order, possibly omitting refs returned earlier) every remote result is added exactly once, and the exit test of the loop "
+    "is data-dependent on the list ray.wait returned (not on the number of refs requested); "
+    "(R12.2) the K-point remote i was created from and the K-point its result is stored on are the same element expression "
+    "(both resolved through temporaries, helpers and index lists), and the serial and parallel arms accumulate identically; (R12.3) every path of run() "
     "to its return passes the coordinate-based re-ordering of tabulated results; (R12.4) the helper reads the "
     "weighted result between set_result and clear_result. Decides the exactly-once/pairing/ordering clauses for "
     "every schedule; does not decide floating-point reassociation of the sum.")
